@@ -1102,6 +1102,8 @@ def unique_tree(rng, depth=0):
             return 's%d' % counter[0]
         if r < 0.9:
             return 1000.5 + counter[0]
+        if r < 0.93:
+            return rng.choice(['', b''])          # empty literals are leaves like any other: str(...) / bytes(...) at the cut
         return rng.choice([None, True, False, Ellipsis])
 
     def go(d):
@@ -1255,8 +1257,8 @@ def depth_chunk(args):
                         known_bad = None
                         for leaf, k, is_str_key in lv:
                             token = repr(leaf) if not isinstance(leaf, str) else "'%s'" % leaf
-                            if leaf is Ellipsis:
-                                continue
+                            if leaf is Ellipsis or (isinstance(leaf, (str, bytes)) and len(leaf) == 0):
+                                continue          # not identifiable by its text: judged by the comparison with the reference pruning below
                             shown = _re.search(r'(?<![\w.])%s(?![\w.])' % _re.escape(token), text) is not None
                             if k < d and not shown:
                                 bad = 'leaf %s at level %d < depth %d is missing' % (token, k, d)
